@@ -111,7 +111,7 @@ func workerMain(a []string) {
 	}
 }
 
-// reverifyMain re-executes each candidate 5 times; "ok" = failed every time (reproducible),
+// reverifyMain re-executes each candidate 5 times (twice when the replays are slow: hangs); "ok" = failed every time (reproducible),
 // "flaky" = failed sometimes, "gone" = never failed again.
 func reverifyMain(in, out string) {
 	b, err := os.ReadFile(in)
@@ -127,14 +127,21 @@ func reverifyMain(in, out string) {
 			res[v.Key+"\x00"+v.Kind] = "noreplay"
 			continue
 		}
-		fails := 0
+		// 5 re-executions; a case whose re-execution runs into the watchdog (a hang costs its full period)
+		// is re-executed twice only, so that a hang is reported within minutes rather than an hour
+		fails, runs := 0, 0
+		start := time.Now()
 		for i := 0; i < 5; i++ {
+			runs++
 			if safeReplay(f, v.Case) != "" {
 				fails++
 			}
+			if i >= 1 && time.Since(start) > 160*time.Second {
+				break
+			}
 		}
 		switch fails {
-		case 5:
+		case runs:
 			res[v.Key+"\x00"+v.Kind] = "ok"
 		case 0:
 			res[v.Key+"\x00"+v.Kind] = "gone"
